@@ -17,7 +17,7 @@ func (c01) Size(tier string) Size {
 	if tier == "thorough" {
 		return Size{Batches: 32, Cases: 10000}
 	}
-	return Size{Batches: 8, Cases: 800}
+	return Size{Batches: 16, Cases: 1200}
 }
 func (c01) Rule() string {
 	return "case = random schema (1-4 soft/struct-backed types over the 28 attribute kinds) + one resource with boundary-biased pool values; marshaled with all fields and all relationship data through MarshalResource and through MarshalDocument, unmarshaled with UnmarshalResource/UnmarshalDocument against the same schema and compared with the *spec* by my own value semantics (math/big, code points, instants, bytes, nil-ness, to-many as sets). Directed part: every pool value of every kind through both implementations. Non-trivial = resource with at least one non-zero attribute or non-empty relationship; distinct = canonical spec hash."
